@@ -85,6 +85,14 @@ Theorem capture_never_leaks : forall cap fmt cos, e_captured (g_err (final cap f
 Proof. intros cap fmt cos. exact (run_captured_none cap fmt cos G0 eq_refl). Qed.
 Print Assumptions capture_never_leaks.
 
+(* the keyless-entry counter (unnamed-N) is reader state that is reset at every parse: what an earlier
+   parse of the same reader left in it is invisible; a fresh reader (OParse) has its own by construction,
+   so parse_history_independent covers keyless readers *)
+Theorem unnamed_counter_reset_per_parse : forall cell rd n file e,
+  feed cell (with_counter rd n) file e = feed cell rd file e.
+Proof. exact unnamed_counter_reset_lemma. Qed.
+Print Assumptions unnamed_counter_reset_per_parse.
+
 (* the files of ONE reader accumulate: parse_files (fs1 ++ fs2) is parse_files fs2 continued from
    the macro table, database and reporting state that fs1 left (and stops where fs1 raised) *)
 Theorem reader_accumulates : forall fs1 fs2 cell rd e,
@@ -149,6 +157,8 @@ Proof. exact capture_exit_none. Qed.
 Print Assumptions capture_restores.
 
 (* ---- non-vacuity ---- *)
+Definition dflt : ropts := mkOpts None false None.
+Definition keyless : ropts := mkOpts None true None.
 Definition ex_m : str := Eval vm_compute in s2l "m".
 Definition ex_file1 : list command := [CString ex_m [VLit [86%N]]].
 Definition x_jan : str := Eval vm_compute in s2l "jan".
@@ -158,8 +168,8 @@ Definition ex_file2 : list command := [CEntry [97%N] [107%N] [([110%N], [VMacro 
 (* a history that really writes macro tables, caches and reporting cells, and uses a bare LowLevelParser
    on an @string that redefines a month *)
 Example busy_history_example :
-  let cos := [(false, ONewReader None); (true, OFeed 0 ex_file1); (false, OLowLevel (Some 0) ex_file1); (false, OLowLevel None ex_jan);
-              (true, OFormatName [97%N] 1%Z []); (false, OSetStrict false); (false, OParse None [ex_file2])] in
+  let cos := [(false, ONewReader dflt); (true, OFeed 0 ex_file1); (false, OLowLevel (Some 0) ex_file1); (false, OLowLevel None ex_jan);
+              (true, OFormatName [97%N] 1%Z []); (false, OSetStrict false); (false, OParse dflt [ex_file2])] in
   o_val (snd (step 2 no_fmt G0 (false, OLowLevel None ex_jan))) = Ok (VItems [IString x_jan [[88%N]]]) /\
   length (g_heap (final 2 no_fmt G0 cos)) = 2 /\ e_code (g_err (final 2 no_fmt G0 cos)) = 2%Z.
 Proof. vm_compute. repeat split; repeat constructor. Qed.
@@ -167,9 +177,9 @@ Proof. vm_compute. repeat split; repeat constructor. Qed.
 (* accumulation within a reader, isolation between readers: the second file sees the macro of the
    first (value "V"); a second reader parsing the second file alone does not (it fails: strict mode) *)
 Example accumulate_isolate_example :
-  (exists d, o_val (snd (step 2 no_fmt G0 (false, OParse None [ex_file1; ex_file2]))) = Ok (VData d) /\
+  (exists d, o_val (snd (step 2 no_fmt G0 (false, OParse dflt [ex_file1; ex_file2]))) = Ok (VData d) /\
              exists en, fst (fst d) = [([107%N], en)] /\ en_fields en = [([110%N], [86%N])]) /\
-  o_val (snd (step 2 no_fmt (final 2 no_fmt G0 [(false, OParse None [ex_file1])]) (false, OParse None [ex_file2]))) = PyErr E_UNDEF (-1)%Z.
+  o_val (snd (step 2 no_fmt (final 2 no_fmt G0 [(false, OParse dflt [ex_file1])]) (false, OParse dflt [ex_file2]))) = PyErr E_UNDEF (-1)%Z.
 Proof. vm_compute. split; [eexists; split; [reflexivity|eexists; split; reflexivity]|reflexivity]. Qed.
 
 (* the capture-mode value theorem on the F19 witness: same value, different reports *)
@@ -182,12 +192,25 @@ Proof. vm_compute. auto. Qed.
 (* a history meeting keeps_strict that contains a failed run, a failed run inside
    capture(), cache traffic and a live reader; the probe after it is a failing parse *)
 Example strict_history_example :
-  let cos := [(false, OParse None [ex_file2]); (true, OParse None [ex_file2; ex_file1]); (false, ONewReader None);
+  let cos := [(false, OParse dflt [ex_file2]); (true, OParse dflt [ex_file2; ex_file1]); (false, ONewReader dflt);
               (true, OFeed 0 ex_file1); (false, OLowLevel None ex_jan); (false, OOpaque 3); (false, OFormatName [97%N] 3%Z []); (false, OSetStrict true)] in
   Forall (fun co => keeps_strict (snd co)) cos /\
-  o_val (snd (step 2 no_fmt G0 (false, OParse None [ex_file2]))) = PyErr E_UNDEF (-1)%Z /\
-  o_captured (snd (step 2 no_fmt G0 (true, OParse None [ex_file2; ex_file1]))) = Some [(E_UNDEF, ex_m)].
+  o_val (snd (step 2 no_fmt G0 (false, OParse dflt [ex_file2]))) = PyErr E_UNDEF (-1)%Z /\
+  o_captured (snd (step 2 no_fmt G0 (true, OParse dflt [ex_file2; ex_file1]))) = Some [(E_UNDEF, ex_m)].
 Proof. vm_compute. repeat split; repeat constructor. Qed.
+
+(* keyless readers: after two keyless parses (one of them failing after its first entry) an independent
+   keyless reader still names its entries unnamed-1, unnamed-2; the second file of ONE reader restarts
+   at unnamed-1 and is reported as a repeated entry *)
+Definition ex_kl : list command := [CEntry [97%N] [] [([110%N], [VLit [120%N]])]; CEntry [98%N] [] []].
+Definition ex_kl_bad : list command := [CEntry [97%N] [] []; CEntry [98%N] [] [([110%N], [VMacro ex_m])]].
+Example keyless_example :
+  let probe := (false, OParse keyless [ex_kl]) in
+  (exists d, o_val (snd (step 2 no_fmt (final 2 no_fmt G0 [probe; (false, OParse keyless [ex_kl_bad]); (true, OParse keyless [ex_kl; ex_kl])]) probe)) = Ok (VData d) /\
+             map fst (fst (fst d)) = [s_unnamed ++ [49%N]; s_unnamed ++ [50%N]]) /\
+  o_val (snd (step 2 no_fmt G0 (false, OParse keyless [ex_kl_bad]))) = PyErr E_UNDEF (-1)%Z /\
+  o_captured (snd (step 2 no_fmt G0 (true, OParse keyless [ex_kl; ex_kl]))) = Some [(E_REPEATED, s_unnamed ++ [49%N]); (E_REPEATED, s_unnamed ++ [50%N])].
+Proof. vm_compute. split; [eexists; split; reflexivity|split; reflexivity]. Qed.
 
 Example quiet_example : quiet no_fmt /\ ~ quiet noisy_fmt.
 Proof. split; [intros n f; reflexivity | intro H; specialize (H [] []); discriminate]. Qed.
